@@ -8,10 +8,11 @@ unsigned char *vt_file; long long vt_file_len;
 struct vt_type vt_types[VT_NTYPES];
 int vt_ntypes;
 static long long vt_last_bytes;
+long long vt_force_val[4]; int vt_force_cnt, vt_force_idx;
 
 void vt_reset(int rank, int nprocs) {
     vt_n = 0; vt_rank = rank; vt_nprocs = nprocs; vt_io_failed = 0; vt_any_failed = 0; vt_type_live = 0; vt_comm_live = 0;
-    vt_ntypes = 0; vt_last_bytes = 0;
+    vt_ntypes = 0; vt_last_bytes = 0; vt_force_cnt = 0; vt_force_idx = 0;
     memset(vt_ev, 0, sizeof vt_ev);
     memset(vt_types, 0, sizeof vt_types);
 }
@@ -114,14 +115,17 @@ int MPI_Allreduce(const void *sb, void *rb, int count, MPI_Datatype dt, MPI_Op o
         long long own, oth, r;
         if (dt == MPI_INT) own = ((const int *)src)[i]; else own = ((const long long *)src)[i];
         if (vt_nprocs <= 1) r = own;
-        else {
+        else if (vt_force_idx < vt_force_cnt) {        /* harness replays the value the other run of the same collective got */
+            r = vt_force_val[vt_force_idx++];
+            ASSUME(o == 1 ? r >= own : o == 2 ? r <= own : 1);
+        } else {
             oth = vh_next_val();
             if (dt == MPI_INT) oth = (int)oth;
             if (o == 1) r = own > oth ? own : oth; else if (o == 2) r = own < oth ? own : oth;
             else if (o == 5) r = (own || oth); else if (o == 6) r = (own && oth); else r = oth;
         }
         if (dt == MPI_INT) ((int *)rb)[i] = (int)r; else ((long long *)rb)[i] = r;
-        if (i == 0) e->val = r;
+        if (i == 0) { e->val = r; e->own = own; }
     }
     return MPI_SUCCESS;
 }
